@@ -28,6 +28,7 @@ def tables_of(ts):
         mnode=np.ascontiguousarray(ts.mutations_node, dtype=np.int32),
         mpos=np.ascontiguousarray(ts.sites_position[ts.mutations_site], dtype=np.float64),
         ntime=np.ascontiguousarray(ts.nodes_time, dtype=np.float64),
+        flags=np.ascontiguousarray(ts.nodes_flags, dtype=np.int64),
         breaks=np.ascontiguousarray(ts.breakpoints(as_array=True), dtype=np.float64),
     )
 
@@ -223,6 +224,52 @@ def gen_single_event(rng):
     return ts2, info
 
 
+EXTRA_FLAG_BITS = [1 << 17, 1 << 18, 1 << 20, 1 << 30, 2, 1 << 16, 1 << 19]
+
+
+def add_flag_bits(ts, rng, mode=None):
+    """Set flag bits other than NODE_IS_SAMPLE (bit 0) on nodes: msprime's RE/CA/MIG event bits, tsinfer-like
+    and user bits.  mode 'unary': every locally unary non-sample node gets one (plus a few others);
+    'random': a random subset of all nodes, samples included (their bit 0 is kept)."""
+    mode = mode or str(rng.choice(["unary", "unary", "random"]))
+    flags = ts.nodes_flags.astype(np.uint32).copy()
+    n = ts.num_nodes
+    if mode == "unary":
+        pick = np.zeros(n, dtype=bool)
+        un = sorted(naive_unary_nodes(ts))
+        pick[un] = True
+        pick |= rng.random(n) < 0.15
+    else:
+        pick = rng.random(n) < 0.5
+    for u in np.where(pick)[0]:
+        k = int(rng.integers(1, 3))
+        for b in rng.choice(EXTRA_FLAG_BITS, size=k, replace=False):
+            flags[u] |= np.uint32(int(b))
+    t = ts.dump_tables()
+    t.nodes.flags = flags
+    return t.tree_sequence(), mode
+
+
+def gen_full_arg(rng):
+    """msprime full ARG: recombination / common-ancestor nodes carry NODE_IS_RE_EVENT / NODE_IS_CA_EVENT and
+    are unary in the local trees."""
+    import msprime
+    n = int(rng.integers(2, 6))
+    seed = int(rng.integers(1, 2**31 - 1))
+    L = float(rng.choice([1e3, 1e4]))
+    trees = int(rng.choice([2, 3, 5]))
+    Ne = 1e3
+    rho = (trees - 1) / (4 * Ne * L * sum(1.0 / i for i in range(1, max(2, n))))
+    ts = msprime.sim_ancestry(samples=[msprime.SampleSet(n, ploidy=1)], population_size=Ne, sequence_length=L,
+                              recombination_rate=rho, record_full_arg=True, random_seed=seed, discrete_genome=True)
+    area = float(np.sum((ts.edges_right - ts.edges_left) * (ts.nodes_time[ts.edges_parent] - ts.nodes_time[ts.edges_child])))
+    mu = 3.0 * ts.num_edges / max(area, 1e-300)
+    ts = msprime.sim_mutations(ts, rate=mu, random_seed=seed + 1, discrete_genome=True)
+    info = dict(n=n, ploidy=1, trees=ts.num_trees, Ne=Ne, L=L, mu=mu, historical=False, sites=ts.num_sites,
+                muts=ts.num_mutations, edges=ts.num_edges, nodes=ts.num_nodes, seed=seed, fired=["full_arg"])
+    return ts, info
+
+
 def sample_unary(ts, rng):
     """Turn some locally unary non-sample nodes into samples (masked by variational_gamma's detector,
     seen by the discrete-time one)."""
@@ -332,6 +379,13 @@ def encode_unary(i, tb, mask):
         "end"]) + "\n"
 
 
+def encode_unary_wrapper(i, tb, skip):
+    return "\n".join(_head(i, "unaryw", tb) + [
+        "flags " + " ".join(str(int(f)) for f in tb["flags"]),
+        f"skip {1 if skip else 0}",
+        "end"]) + "\n"
+
+
 def _ints(s):
     return np.array([int(x) for x in s.split()], dtype=np.int64)
 
@@ -361,6 +415,9 @@ def run_model(text):
         elif parts[1] == "unary":
             f = parts[2].split()
             out[i] = dict(flags=f[0], contains=f[1] == "1", locally=f[2] == "1")
+        elif parts[1] == "unaryw":
+            f = parts[2].split()
+            out[i] = dict(flags=f[0], contains=f[1] == "1")
     return out
 
 
